@@ -1,5 +1,13 @@
-def replay_pack(tags, lengths, encoding, values=None):
+def replay_pack(tags, lengths, encoding, values=None, cfg=None):
     from cardutil import iso8583
+    import copy
+    from cardutil.config import config
+    cfgs = None
+    car = [48, 62, 123, 124, 125]
+    if cfg == 'de62-plain':
+        cfgs = copy.deepcopy(config['bit_config'])
+        del cfgs['62']['field_processor']
+        car = [48, 123, 124, 125]
     vals = values or [''.join(chr(48 + (i * 3 + j) % 10) for j in range(n)) for i, n in enumerate(lengths)]   # digits: look like headers
     msg = {'MTI': '1240'}
     for t, v in zip(tags, vals):
@@ -29,15 +37,14 @@ def replay_pack(tags, lengths, encoding, values=None):
         c += len(o)
         if c not in bounds:
             return True, 'sub-element split between carriers', 'C12/split'
-    if len(ref) <= 5 and len(outs) > 5:
+    if len(ref) <= len(car) and len(outs) > len(car):
         return True, 'packed into %d carriers, %d suffice' % (len(outs), len(ref)), 'C12/capacity'
     try:
-        d = iso8583.loads(iso8583.dumps(dict(msg), encoding=encoding), encoding=encoding)
+        d = iso8583.loads(iso8583.dumps(dict(msg), encoding=encoding, iso_config=cfgs), encoding=encoding, iso_config=cfgs)
     except IndexError:
         return True, 'dumps ran out of carriers', 'C12/capacity'
     except Exception as e:
         return True, 'dumps/loads raised %s' % type(e).__name__, 'C12/decode'
-    car = [48, 62, 123, 124, 125]
     for j, o in enumerate(outs):
         if d.get('DE%d' % car[j]) != o:
             return True, 'DE%d does not hold packed string %d' % (car[j], j + 1), 'C12/assign'
